@@ -135,6 +135,9 @@ type Emitting struct {
 	AppStats      *AppStats
 	Stream        TcpStream
 	OutputChannel chan *OutputChannelItem
+	// indexMutex makes reading the stream's item index and incrementing it one atomic
+	// step, so that concurrent Emit calls never hand out the same index.
+	indexMutex sync.Mutex
 }
 
 type Emitter interface {
@@ -147,9 +150,11 @@ func (e *Emitting) Emit(item *OutputChannelItem) {
 	e.Stream.SetAsEmittable()
 
 	item.Stream = e.Stream.GetPcapId()
+	e.indexMutex.Lock()
 	item.Index = e.Stream.GetIndex()
 	verifhook.Yield("emit.mid")
 	e.Stream.IncrementItemCount()
+	e.indexMutex.Unlock()
 	e.OutputChannel <- item
 }
 
